@@ -3,4 +3,4 @@
    positive / N / Z / nat stay the extracted inductive types. No Extract Constant. *)
 From Coq Require Import Extraction ExtrOcamlBasic.
 From AnnVerif Require Import Base.Bytes Base.Sx Corr.PartsCorr Corr.VoteSetCorr Corr.ValSetCorr Corr.SignerCorr Corr.AdminCorr Corr.P2PCorr Corr.PoolCorr Corr.CodecCorr Corr.NodeCorr Corr.TrieCorr Corr.EvmCorr Corr.TxCorr Corr.CommitCorr Corr.SyncCorr Corr.StateCorr Corr.SystemCorr Corr.ValidateCorr Corr.EvmCoreCorr Corr.EvmWorldCorr.
-Extraction "model.ml" check_parts check_voteset check_valset check_signer check_admin check_sconn check_mconn check_admit check_pool check_mempool check_wire check_signbytes check_rlp check_consensus check_trie check_evmarith check_evmapp check_crash check_blocksync check_statedb check_system check_validate check_evmcore check_evmworld.
+Extraction "model.ml" check_parts check_voteset check_valset check_signer check_admin check_sconn check_mconn check_admit check_pool check_mempool check_wire check_signbytes check_rlp check_consensus check_trie check_evmarith check_evmapp check_crash check_blocksync check_statedb check_system check_validate check_evmcore check_evmworld check_admithist.
